@@ -534,7 +534,32 @@ func (c *SchedCase) CoqCase(obs *SchedObs) (string, bool) {
 			}
 		}
 	}
-	return fmt.Sprintf("CRun %s %s %s %s", c.GraphTerm(ix), natList(hints), evs, lib.Bool(obs.Exit != 0)), ok
+	// The result stream may lack its tail (forwardResults vs CloseResults). Commands that ran to their end (E line) or
+	// failed (F line) according to the action log but have no final result in the stream, in the order they started:
+	ended, failedCmd, finalSeen := map[string]bool{}, map[string]bool{}, map[string]bool{}
+	for _, line := range obs.Log {
+		if f := strings.Fields(line); len(f) == 2 {
+			ended[f[1]] = ended[f[1]] || f[0] == "E"
+			failedCmd[f[1]] = failedCmd[f[1]] || f[0] == "F"
+		}
+	}
+	for _, e := range obs.Events {
+		if e.Ph == "E" {
+			finalSeen[e.Label] = true
+		}
+	}
+	tail, done := []string{}, map[string]bool{}
+	for _, line := range obs.Log {
+		f := strings.Fields(line)
+		if len(f) != 2 || f[0] != "S" || done[f[1]] || finalSeen[f[1]] || !(ended[f[1]] || failedCmd[f[1]]) {
+			continue
+		}
+		if n, known := ix.Num[f[1]]; known {
+			done[f[1]] = true
+			tail = append(tail, fmt.Sprintf("(%d, %s)", n, lib.Bool(ended[f[1]])))
+		}
+	}
+	return fmt.Sprintf("CRun %s %s %s [%s] %s", c.GraphTerm(ix), natList(hints), evs, strings.Join(tail, "; "), lib.Bool(obs.Exit != 0)), ok
 }
 
 // ---------------------------------------------------------------------------------------------
@@ -894,8 +919,10 @@ func RunSchedProperty(c *lib.Ctx, prop string) {
 			if f.Prop == prop {
 				c.Fail(f.Class, f.What, js)
 			}
-			// a lost result is a defect of the implementation, not of the model: the oracle reports it, the model case is not emitted
-			if f.Class == "result-lost-at-shutdown" || f.Class == "command-abandoned" || f.Class == "command-outlives-plz" {
+			// A lost tail of the result stream is part of the model (reported = a prefix of the log; the case carries the
+			// commands the action log knows about). Not replayable: a rebuild that lost "Unchanged" results (no action log
+			// to tell what happened), a command that was abandoned or outlived plz.
+			if (f.Class == "result-lost-at-shutdown" && sc.Second != "") || f.Class == "command-abandoned" || f.Class == "command-outlives-plz" {
 				skipModel = true
 			}
 		}
